@@ -275,41 +275,19 @@ func c07Snapshots(c *Ctx) {
 					c.Check(bad == "", "C07.iv-snapshot-immutable", mk, cs.In.Pos(), "map made by each caller of the publishing helper, not written after the call, no other escaping use", bad)
 					continue
 				}
-				// (b) fresh map of this function, never written after publication, no other escape
-				mm, ok := mv.V.(*ssa.MakeMap)
-				if !ok || mm.Parent() != cs.Fn {
+				// (b) fresh map of this function (made here, or returned by a helper that makes it), never written after
+				// publication, no other escape
+				var mm ssa.Value
+				if k, ok := mv.V.(*ssa.MakeMap); ok && k.Parent() == cs.Fn {
+					mm = k
+				} else if call, ok := strip(mv).V.(*ssa.Call); ok && returnsFreshMap(c, call.Call.StaticCallee(), 0) {
+					mm = call
+				}
+				if mm == nil {
 					c.Bad("C07.iv-snapshot-immutable", mk, cs.In.Pos(), "published map is neither fresh in this function nor the unchanged map of the loaded snapshot: "+mv.String())
 					continue
 				}
-				bad := ""
-				walkUses(mm, func(in ssa.Instruction) {
-					switch u := in.(type) {
-					case *ssa.MapUpdate:
-						if MayFollow(cs.In, u) {
-							bad = "map is updated at " + c.pos(u.Pos()) + " after it was published"
-						}
-					case *ssa.Lookup, *ssa.Range, *ssa.DebugRef:
-					case *ssa.Store:
-						// stored into a snapshot literal field
-						if a := c.E(u.Addr); a.Op != "field" || fieldOwner(a) != "readOnly" {
-							bad = "map escapes through a store at " + c.pos(u.Pos())
-						}
-					case ssa.CallInstruction:
-						if bi, ok := u.Common().Value.(*ssa.Builtin); ok {
-							if bi.Name() == "delete" && MayFollow(cs.In, u) {
-								bad = "map entry deleted at " + c.pos(u.Pos()) + " after publication"
-							}
-							if bi.Name() == "len" || bi.Name() == "delete" {
-								return
-							}
-						}
-						bad = "map escapes to a call at " + c.pos(u.Pos())
-					case *ssa.Phi:
-						bad = "map flows through a phi (aliased) at " + c.pos(u.Pos())
-					default:
-						bad = "unrecognised use of the published map at " + c.pos(in.Pos())
-					}
-				})
+				bad := freshMapMisuse(c, mm, cs.In, nil)
 				c.Check(bad == "", "C07.iv-snapshot-immutable", mk, cs.In.Pos(), "fresh map, no write reachable after the atomic Store, no other escaping use", bad)
 			}
 		}
@@ -608,7 +586,7 @@ func isReaderSide(c *Ctx, fn *ssa.Function) bool {
 // freshMapMisuse checks the uses of a freshly made map in its function: no
 // update/delete may follow the publication point, and the only call it may be
 // passed to is allowedCall (the publishing helper). Returns "" if fine.
-func freshMapMisuse(c *Ctx, mm *ssa.MakeMap, pubPoint ssa.Instruction, allowedCall ssa.Instruction) string {
+func freshMapMisuse(c *Ctx, mm ssa.Value, pubPoint ssa.Instruction, allowedCall ssa.Instruction) string {
 	bad := ""
 	walkUses(mm, func(in ssa.Instruction) {
 		switch u := in.(type) {
@@ -624,6 +602,9 @@ func freshMapMisuse(c *Ctx, mm *ssa.MakeMap, pubPoint ssa.Instruction, allowedCa
 		case ssa.CallInstruction:
 			if in == allowedCall {
 				return
+			}
+			if readOnlyMapParam(c, u, mm) {
+				return // handed to a helper that only reads it
 			}
 			if bi, ok := u.Common().Value.(*ssa.Builtin); ok {
 				if bi.Name() == "delete" && MayFollow(pubPoint, u) {
@@ -702,4 +683,73 @@ func sourcesDecodeFresh(c *Ctx, rule string) {
 			c.Check(why == "", rule, f.Name+" › decode target", cs.In.Pos(), "records are decoded into a new local value and not retained", why+": a later fetch decodes into records readers already hold (published records are rewritten in place, without synchronisation)")
 		}
 	}
+}
+
+// readOnlyMapParam: call passes map m to a same-package unexported function
+// that only reads it (lookups, ranges, len): not an escape.
+func readOnlyMapParam(c *Ctx, call ssa.CallInstruction, m ssa.Value) bool {
+	callee := call.Common().StaticCallee()
+	if callee == nil || !samePkgBody(call.Parent(), callee) || callee.Object() == nil || callee.Object().Exported() {
+		return false
+	}
+	okAll, used := true, false
+	for i, a := range call.Common().Args {
+		if a != m {
+			continue
+		}
+		used = true
+		if i >= len(callee.Params) {
+			return false
+		}
+		walkUses(callee.Params[i], func(in ssa.Instruction) {
+			switch u := in.(type) {
+			case *ssa.Lookup, *ssa.Range, *ssa.DebugRef:
+			case ssa.CallInstruction:
+				if bi, ok := u.Common().Value.(*ssa.Builtin); ok && bi.Name() == "len" {
+					return
+				}
+				okAll = false
+			default:
+				okAll = false
+			}
+		})
+	}
+	return used && okAll
+}
+
+// returnsFreshMap: every return of the unexported helper fn yields a map made
+// in fn that fn itself does not store anywhere or hand on.
+func returnsFreshMap(c *Ctx, fn *ssa.Function, idx int) bool {
+	if fn == nil || len(fn.Blocks) == 0 || fn.Object() == nil || fn.Object().Exported() || fn.Pkg == nil || !strings.HasPrefix(fn.Pkg.Pkg.Path(), modPath) {
+		return false
+	}
+	n := 0
+	for _, b := range fn.Blocks {
+		ret, ok := b.Instrs[len(b.Instrs)-1].(*ssa.Return)
+		if !ok || idx >= len(ret.Results) {
+			continue
+		}
+		n++
+		mk, isMk := unwrapV(ret.Results[idx]).(*ssa.MakeMap)
+		if !isMk {
+			return false
+		}
+		clean := true
+		walkUses(mk, func(in ssa.Instruction) {
+			switch u := in.(type) {
+			case *ssa.MapUpdate, *ssa.Lookup, *ssa.Range, *ssa.DebugRef, *ssa.Return:
+			case ssa.CallInstruction:
+				if bi, ok := u.Common().Value.(*ssa.Builtin); ok && (bi.Name() == "len" || bi.Name() == "delete") {
+					return
+				}
+				clean = false
+			default:
+				clean = false
+			}
+		})
+		if !clean {
+			return false
+		}
+	}
+	return n > 0
 }
